@@ -11,6 +11,7 @@ import (
 	"encoding/json"
 	"fmt"
 	"os"
+	"runtime"
 	"sort"
 	"strconv"
 	"sync"
@@ -191,8 +192,21 @@ func Calls(fn string) int { return 0 }
 // CallArg returns a component of an observed call (engine only).
 func CallArg(fn string, k int, path ...int) any { return nil }
 
-// Leaked returns the number of goroutines other than the harness's that have not finished.
-func Leaked() int { return 0 }
+var goroutineBaseline int
+
+// Baseline records the number of goroutines before the code under test starts any (native
+// playback; under the engine the scheduler knows its goroutines and this does nothing).
+func Baseline() { goroutineBaseline = runtime.NumGoroutine() }
+
+// Leaked returns the number of goroutines started by the code under test that have not
+// finished: exactly under the engine, by comparison with Baseline natively.
+func Leaked() int {
+	n := runtime.NumGoroutine() - goroutineBaseline
+	if n < 0 {
+		return 0
+	}
+	return n
+}
 
 // Snapshot returns what the current native playback recorded.
 func Snapshot() (violations []string, obs map[string]string, reach []string) {
@@ -224,7 +238,14 @@ func Or(a, b bool) bool { return a || b }
 
 // Quiesce lets all other goroutines run until none is runnable (engine); natively it sleeps
 // briefly so that goroutines about to exit can do so.
-func Quiesce() { time.Sleep(20 * time.Millisecond) }
+func Quiesce() {
+	for i := 0; i < 30; i++ {
+		time.Sleep(10 * time.Millisecond)
+		if runtime.NumGoroutine() <= goroutineBaseline {
+			return
+		}
+	}
+}
 
 // ExploreSchedules switches the exploration of goroutine schedules on or off inside a job that
 // was started with schedule exploration (off = one fixed run-until-block schedule). Natively
